@@ -86,15 +86,24 @@ class URLMethodsMixin:
             host = e.get('HTTP_HOST')
             if host is None:
                 host = e['SERVER_NAME']
+        # split an optional ":port" off the host; the colons inside a
+        # bracketed IPv6 literal ("[::1]:8080") are part of the host
+        host_port = None
+        if host.startswith('['):
+            bracket = host.find(']')
+            if bracket != -1:
+                if host[bracket + 1 : bracket + 2] == ':':
+                    host_port = host[bracket + 2 :]
+                host = host[: bracket + 1]
+        elif ':' in host:
+            host, host_port = host.split(':', 1)
         if port is None:
-            if ':' in host:
-                host, port = host.split(':', 1)
+            if host_port is not None:
+                port = host_port
             else:
                 port = e['SERVER_PORT']
         else:
             port = str(port)
-            if ':' in host:
-                host, _ = host.split(':', 1)
         if scheme == 'https':
             if port == '443':
                 port = None
